@@ -63,3 +63,46 @@ theorem C17_immutable (st : St) (s : Nat) (k : String) :
 
 example : (step (snapshot 3 (exec {} [.set (.decl 0) "a" (.handle 0)]) (.decl 0)).1 (.ssetattr 0 "a")).2
     = .res (.raised "ValueError") := by decide
+
+/-- **Names absent from the map are absent from the snapshot, and only those.**  Corollary of
+`C17_mirror`, spelled out because the property states it separately: under the same hypotheses,
+for every chain of names, `m.get(k1)….get(kn)` finds nothing exactly when
+`s.get(k1)….get(kn)` finds nothing, and `m[k1]…[kn]` raises `KeyError` exactly when
+`s[k1]…[kn]` / `s.k1.….kn` raises `AttributeError` — the snapshot neither loses a name of the map
+nor invents one. -/
+theorem C17_absent_names (F : HId → Nat → Bool) (ops ops2 : List Op) (i : MId) (fuel : Nat) (st1 : St) (s : Nat)
+    (hs : snapshot fuel (exec (init F) ops) i = (st1, some s))
+    (h2 : ∀ op ∈ ops2, op.mutates = false)
+    (ks : List String) (hres : ∀ k ∈ ks, reserved k = false) :
+    (getChain (exec st1 ops2) i ks = none ↔ sGetChain (exec st1 ops2) s ks = none) ∧
+    ((chainItems (exec st1 ops2) i ks).2 = .raised "KeyError" ↔
+      (sItems (exec st1 ops2) s ks).2 = .raised "AttributeError") := by
+  obtain ⟨_, hi, hg⟩ := C17_mirror F ops ops2 i fuel st1 s hs h2 ks hres
+  constructor
+  · generalize sGetChain (exec st1 ops2) s ks = a at hg
+    generalize getChain (exec st1 ops2) i ks = b at hg
+    rcases a with _ | a <;> rcases b with _ | b
+    · simp
+    · simp [GetRel] at hg
+    · cases a <;> simp [GetRel] at hg
+    · simp
+  · generalize (sItems (exec st1 ops2) s ks).2 = a at hi
+    generalize (chainItems (exec st1 ops2) i ks).2 = b at hi
+    rcases a with x | e | _ <;> rcases b with y | e' | _
+    · simp
+    · cases x <;> simp [ItemRel] at hi
+    · cases x <;> simp [ItemRel] at hi
+    · simp [ItemRel] at hi
+    · rcases hi with ⟨h1, h2⟩ | ⟨h1, h2⟩ <;> subst h1 <;> subst h2 <;> simp
+    · simp [ItemRel] at hi
+    · simp [ItemRel] at hi
+    · simp [ItemRel] at hi
+    · simp
+
+example :
+    let st0 := exec {} [.set (.decl 0) "a/x-y" (.handle 0), .set (.decl 0) "b" (.handle 1)]
+    let r := snapshot 5 st0 (.decl 0)
+    getChain r.1 (.decl 0) ["a", "q"] = none ∧ sGetChain r.1 1 ["a", "q"] = none ∧
+    (chainItems r.1 (.decl 0) ["a", "q"]).2 = .raised "KeyError" ∧
+    (sItems r.1 1 ["a", "q"]).2 = .raised "AttributeError" := by
+  decide
